@@ -441,7 +441,7 @@ def visit_harness(prog, mode, tr_text, active_excl=()):
                 if mode not in pred[1]:
                     continue
                 pred = pred[0]
-            m.append('  VASSUME(!(%s));   /* known finding %s excluded */' % (pred, k))
+            m.append('#ifndef WITNESS_NOEXCL\n  VASSUME(!(%s));   /* known finding %s excluded */\n#endif' % (pred, k))
     m.append('  which = 0; ref_%s(%s);' % (prog.kernel, ', '.join(call)))
     for s in prog.mid_assumes:
         m.append('  VASSUME(%s);' % s)
@@ -453,7 +453,7 @@ def visit_harness(prog, mode, tr_text, active_excl=()):
                 if mode not in pred[1]:
                     continue
                 pred = pred[0]
-            m.append('  VASSUME(!(%s));   /* known finding %s excluded */' % (pred, k))
+            m.append('#ifndef WITNESS_NOEXCL\n  VASSUME(!(%s));   /* known finding %s excluded */\n#endif' % (pred, k))
     for s in prog.post_assumes:
         m.append('  VASSUME(%s);' % s)
     m.append('  OUT(n_ref, nvis[0]); OUT(n_tr, nvis[1]); OUT(w_ref, nwatch[0]); OUT(w_tr, nwatch[1]);')
@@ -610,7 +610,7 @@ def array_harness(prog, mode, tr_text, active_excl=()):
                 if mode not in pred[1]:
                     continue
                 pred = pred[0]
-            m.append('  VASSUME(!(%s));   /* known finding %s excluded */' % (pred, k))
+            m.append('#ifndef WITNESS_NOEXCL\n  VASSUME(!(%s));   /* known finding %s excluded */\n#endif' % (pred, k))
     m.append('  ref_%s(%s);' % (prog.kernel, ', '.join(call_r)))
     m.append('  tr_%s(%s);' % (prog.kernel, ', '.join(call_t)))
     m.append('  VASSERT(!launch_overflow, "a launch dimension exceeds the bound");')
